@@ -554,6 +554,10 @@ def handle (q : Q) (op : String) (a : Proto.Args) : Q × String :=
     if r == .panic then (q', "panic") else (q', outStr q q' r evs (a.bool "nost"))
   | "pop" =>
     let (q', r, evs) := q.popUsed (a.nat "tok") (parseBufs (a.str "in")) (parseBufs (a.str "out")); (q', outStr q q' r evs (a.bool "nost"))
+  | "add_many" =>
+    -- `k` one-byte device-readable buffers (k ≥ 2^16): refused like every chain longer than the queue
+    let (q', r, evs) := q.add (List.replicate (a.nat "k") { id := 0, len := 1 }) []
+    (q', outStr q q' r evs)
   | "add_huge" =>
     -- a buffer of 2^32 + 16 bytes: `buf.len().try_into().unwrap()` in `Descriptor::set_buf` panics
     (q, "panic")
